@@ -288,8 +288,8 @@ def check_seq(ctx):
                 before.append(call)
         bad = []
         for c in before:
-            g = [(canon(t), pol) for t, pol in A.guards_of(c)]
-            if isinstance(c.func, ast.Attribute) and c.func.attr == "choice" and ("randomize_prior_order", True) in g:
+            g = A.term_strings(A.path_condition(A.enclosing_stmt(c), S.fn, inline=False))
+            if isinstance(c.func, ast.Attribute) and c.func.attr == "choice" and "+randomize_prior_order" in g:
                 continue
             bad.append(c)
         ctx.check(R, S.acc_stmt, "%s: acceptance uniforms are the first draw" % name, not bad,
